@@ -16,7 +16,7 @@ from ..flow import Flow, lexically_inside
 
 FILESET = "typhon/files/fileset.py"
 HCOMMON = "typhon/files/handlers/common.py"
-EXPECT = {"C15.filesystem": 1, "C15.order": 6, "C15.load": 3, "C15.register": 1, "C15.format": 3, "C15.lookup": 3, "C15.entries": 2}
+EXPECT = {"C15.filesystem": 1, "C15.order": 7, "C15.load": 3, "C15.register": 1, "C15.format": 3, "C15.lookup": 3, "C15.entries": 2}
 
 
 def _write_mode(call):
@@ -62,6 +62,22 @@ def rule_order(ctx):
     ctx.ob("FileSet.save_cache.rename", len(movers) == 1 and len(good) == 1,
            "rename/move calls: %s" % [norm(c) for c in movers],
            "exactly one, from the written sibling path to the target", node=movers[0] if movers else f.node, func=f)
+    # 2b. nothing else touches the target: a remove/truncate of the old cache before the rename leaves a window without any cache file
+    destructive = ("os.remove", "os.unlink", "os.rmdir", "shutil.rmtree", "os.truncate", "shutil.copy", "shutil.copyfile", "shutil.copy2")
+    touch = []
+    for c in calls_in(f.node):
+        d = dotted(c.func) or ""
+        if c in movers or c in opens:
+            continue
+        if d in destructive and any(norm(flow.resolve(a, at=c)) == target for a in c.args):
+            touch.append(norm(c))
+        elif isinstance(c.func, ast.Attribute) and c.func.attr in ("unlink", "write_text", "write_bytes", "touch") \
+                and isinstance(c.func.value, ast.Call) and (dotted(c.func.value.func) or "").split(".")[-1] == "Path" \
+                and any(norm(flow.resolve(a_, at=c)) == target for a_ in c.func.value.args):
+            touch.append(norm(c))
+    ctx.ob("FileSet.save_cache.untouched", not touch, "other calls that remove, truncate or overwrite the target: %s" % touch,
+           "none - until the rename the old cache file stays in place (remove-then-move is not atomic)",
+           node=movers[0] if movers else f.node, func=f)
     if len(good) != 1:
         return
     m = good[0]
